@@ -1,19 +1,58 @@
 import Svgbob.Proofs.Shift
+import Svgbob.Proofs.MoveAll2
 /-!
 # C06 — moving a drawing on the page only translates its rendering
 
-Stage theorems of translation equivariance for the model (`(k, n)` = offset in cells, any
-integers): the greedy loops of the pipeline commute with moving their input, because every
-predicate they evaluate is a function of coordinate differences. Proved: span merging
-(`Span::merge_recursive`), `Fragment::merge` in all its cases (collinear touching lines, line +
-bullet, adjacent cell texts) and hence the whole fragment merge of a scope.
-Not yet composed into one theorem about `endorseAll` (front end, per-cell fragments, contact
-grouping, rectangle and catalogue endorsement are translation invariant by the same argument but
-not yet proved); the end-to-end statement is checked on the implementation by the shift oracle at
-offsets up to (400, 200) and the model is tied to the implementation byte-for-byte there.
+Translation equivariance of the model (`(k, n)` = offset in cells, any integers). The main
+theorem is `whole_middle_equivariant`: the complete middle of the pipeline (`endorseAll`: spans,
+catalogue circles and arcs, per-cell fragments from the tables, the ordered fragment buffer, the
+fragment merge, contact grouping, rectangle and rounded-rectangle endorsement, re-endorsement of
+the rejects, singles/groups split, quoted texts) applied to the moved cells gives exactly the moved
+result, element by element and in the same order. It is composed from the stage theorems below
+(every predicate the stages evaluate is a function of coordinate differences; cell-local table
+lookups see the same neighbourhood) and from an invariant (`Frag.Movable`: no polygon without
+points, decided over the regenerated tables and preserved by every merge).
+Not covered by a theorem: the front end (text → cells; a drawing moved by `k` columns / `n` rows in
+the text is the moved cell set unless quoted regions or a legend interfere) and the back end
+(moved fragments render with coordinates offset by `scale·(k, 2n)` and a larger canvas). Both are
+checked on the implementation by the shift oracle at offsets up to (400, 200), and the model is
+tied to the implementation byte-for-byte there.
 -/
 namespace Svgbob.C06
 open Svgbob
+
+/-- **the whole middle of the pipeline is translation equivariant**: for every catalogue, every
+cell set and every list of quoted texts -/
+theorem whole_middle_equivariant (len : List Char → Nat) (cat : Catalogue) (k n : Int)
+    (cells : Span) (escaped : List (Cell × List Char)) :
+    endorseAll len cat (Span.shift k n cells) (escaped.map fun e => (e.1.shift k n, e.2)) =
+      (endorseAll len cat cells escaped).map (moveResult k n) :=
+  endorseAll_shift len cat k n cells escaped
+
+/-- what "moved" means for the result: every top-level fragment and every fragment of every group
+has its points offset by `(1000 k, 2000 n)` milli-units (texts: their cell by `(k, n)`), its span
+by `(k, n)` cells; nothing else changes (kinds, flags, radii, order) -/
+theorem moved_result_shape (k n : Int) (r : List FragSpan × List (List FragSpan)) :
+    (moveResult k n r).1.length = r.1.length ∧ (moveResult k n r).2.map List.length = r.2.map List.length := by
+  simp [moveResult, List.map_map, Function.comp_def]
+
+/-- the two endorsement steps separately -/
+theorem span_endorsement_equivariant (len : List Char → Nat) (cat : Catalogue) (k n : Int) (s : Span) :
+    spanEndorse len cat (Span.shift k n s) = (spanEndorse len cat s).map (moveEndorsed k n) :=
+  spanEndorse_shift len cat k n s
+
+theorem contact_groups_equivariant (len : List Char → Nat) (k n : Int) (s : Span) :
+    contactsOf len (Span.shift k n s) = (contactsOf len s).map (List.map (FragSpan.move k n)) :=
+  contactsOf_shift len k n s
+
+/-- rectangle endorsement of a contact group (sharp and rounded) -/
+theorem rect_endorsement_equivariant (k n : Int) (frags : List Frag) (h : ∀ f ∈ frags, f.Movable) :
+    contactsEndorseRect (frags.map (Frag.move k n)) = (contactsEndorseRect frags).map (Frag.move k n) :=
+  contactsEndorseRect_move k n frags h
+
+/-- the hypothesis of the previous theorem holds for everything the pipeline builds -/
+theorem pipeline_fragments_movable (len : List Char → Nat) (s : Span) :
+    ∀ g ∈ contactsOf len s, ∀ f ∈ g, f.frag.Movable := contactsOf_movable len s
 
 /-- adjacency of cells does not depend on where they are -/
 theorem adjacency_translation_invariant (k n : Int) (a b : Cell) :
@@ -45,6 +84,14 @@ theorem predicates_translation_invariant (d s e s' e' p : Pt) :
     Pt.dist2 (d.add s) (d.add e) = Pt.dist2 s e :=
   ⟨onSegment_add d s e p, isCollinear_add d s e p, lineCanMerge_add d s e s' e',
    lineHeading_add d s e, dist2_add d s e⟩
+
+/-! Tests (labelled as tests): a 3x3 box becomes one rect at the origin and, moved by (7, 3) cells, the
+moved rect (empty catalogue; the instance of `whole_middle_equivariant` evaluated by the kernel). -/
+def testCells : Span := [(⟨0,0⟩,'+'),(⟨1,0⟩,'-'),(⟨2,0⟩,'+'),(⟨0,1⟩,'|'),(⟨2,1⟩,'|'),(⟨0,2⟩,'+'),(⟨1,2⟩,'-'),(⟨2,2⟩,'+')]
+example : ((endorseAll (fun c => c.length) ⟨[], [], [], []⟩ testCells []).map fun r => r.1.map (·.frag)) =
+    some [.rect ⟨500, 1000⟩ ⟨2500, 5000⟩ false none false] := by decide +kernel
+example : ((endorseAll (fun c => c.length) ⟨[], [], [], []⟩ (Span.shift 7 3 testCells) []).map fun r => r.1.map (·.frag)) =
+    some [.rect ⟨7500, 7000⟩ ⟨9500, 11000⟩ false none false] := by decide +kernel
 
 /-! Test (labelled as test): a diagonal piece pair far from the origin merges like at the origin. -/
 example : Frag.merge (fun c => c.length) (Frag.move 400 200 (.line ⟨0, 0⟩ ⟨1000, 2000⟩ false))
